@@ -181,9 +181,13 @@ func solveOne(o *Obligation, watch []string, opts solveOpts, idx int) {
 			}
 			stripped.Script = append(stripped.Script, l)
 		}
-		os.WriteFile(file, []byte(strings.ReplaceAll(queryText(&stripped, watch), "(declare-fun errIs (Int Int) Bool)\n(assert (forall", "(declare-fun errIs (Int Int) Bool)\n(assert (forall")), 0o644)
+		rfile := file + ".relaxed.smt2"
+		os.WriteFile(rfile, []byte(queryText(&stripped, watch)), 0o644)
+		if !opts.keepFiles {
+			defer os.Remove(rfile)
+		}
 		for _, s := range solvers[:1] {
-			v, out, secs := runSolver(s, file, opts.quickMs)
+			v, out, secs := runSolver(s, rfile, opts.quickMs)
 			o.TimeS += secs
 			if v == "sat" {
 				o.Candidate = out
